@@ -178,7 +178,8 @@ def random_programs(draw):
     from harness.checks import c10
     p = draw(c10.programs())
     ops = list(p['ops'])
-    fault = draw(st.sampled_from([['cut', 'eof'], ['cut', 'error'], ['close', 'c'], ['close', 's'], None]))
+    fault = draw(st.sampled_from([['cut', 'eof'], ['cut', 'error'], ['cut', 'etimedout'], ['cut', 'ehostunreach'], ['close', 'c'],
+                                  ['close', 's'], None]))
     if fault is not None:
         pos = draw(st.integers(0, len(ops)))
         ops = ops[:pos] + [fault, ['tick', 3]] + ops[pos:]
@@ -207,6 +208,16 @@ def random_programs(draw):
                         continue
                 kept.append(o)
             ops = kept
+    cold = [i for i, sp in enumerate(inter) if sp['k'] in ('st', 'ch') and not (sp.get('sub') or {}).get('on_error_start')]
+    if cold and draw(st.integers(0, 2)) == 0:
+        # a cold publisher: request_stream()/request_channel() registers the stream, the application subscribes later or never
+        i = draw(st.sampled_from(cold))
+        inter[i] = dict(inter[i], late_subscribe=True)
+        if draw(st.booleans()):
+            pos = draw(st.integers(0, len(ops)))
+            ops = ops[:pos] + [['subscribe', i]] + ops[pos:]
+    if fault is not None:
+        ops = ops + [['tick', 4], ['settle']]  # let both ends notice the end of the connection before the run is judged
     p = dict(p, ops=ops, inter=inter)
     p['cfg'] = dict(p['cfg'], idmask=None)
     return p
@@ -219,7 +230,7 @@ def prop(program):
     tr = run_program(program)
     vs = monitors.mon_terminal_once(tr, PID)
     # "exactly once" also excludes zero: an interaction started before an explicit close() must have its outcome by then
-    vs += [v for v in monitors.mon_connection_loss(tr, PID) if 'hanging_after_close' in v['sig']]
+    vs += [v for v in monitors.mon_connection_loss(tr, PID) if 'hanging_after_close' in v['sig'] or v['sig'].endswith(':hanging:rr')]
     ops = program['ops']
     fault_at = next((i for i, o in enumerate(ops) if o[0] in ('cut', 'close')), None)
     info['nt'] = fault_at is not None and fault_at < len(ops) - 2 or any(o[0] in ('cancel', 'end', 'fail') for o in ops)
